@@ -362,6 +362,17 @@ def run_shard(ctx):
             atoms += [("LYS", "NZ"), ("TYR", "OH"), ("CYS", "SG"), ("ASP", "CG"), ("GLU", "CD"), ("HIS", "CG"),
                       ("ARG", "CZ")]
             picks = draw(st.lists(st.sampled_from(atoms), max_size=3, unique=True))
+            short = [r for r, n in picks if any(a.rec == "HETATM" and a.resn.strip() == r
+                                                for a in pdbio.atoms_of(pdbio.parse(text)))]
+            if short and draw(st.booleans()):
+                # hetero residue names are 1-3 characters (DA, DG, U ...): give the picked residue a two-letter name
+                old, new = short[0], "Q" + str(draw(st.integers(2, 9)))
+                ents = pdbio.parse(text)
+                for a in pdbio.atoms_of(ents):
+                    if a.rec == "HETATM" and a.resn.strip() == old:
+                        a.resn = new.rjust(3) if draw(st.booleans()) else new.ljust(3)
+                text = pdbio.write(ents)
+                picks = [(new if r == old else r, n) for r, n in picks]
             if picks or not spec:
                 spec["extra"] = ["custom_model_pkas %s-%s %.2f" % (r, n, draw(st.sampled_from([2.1, 5.71, 8.4, 11.3])))
                                  for r, n in picks] or ["custom_model_pkas XYZ-N1 5.00"]
